@@ -63,9 +63,21 @@ type result struct {
 }
 
 var seekableStdin bool
+var curCtx *Ctx
+var curDir string
+var curFiles map[string]string
 
-func runCLI(args []string, stdin string) result {
+func runCLI(args []string, stdin string) (res result) {
 	rec := &recorder{}
+	defer func() {
+		if p := recover(); p != nil {
+			// a panic of the command is a failing input by itself
+			if curCtx != nil {
+				curCtx.Violation("%s :: panic: %v", caseText(shortArgs(args, curDir), stdin, curFiles), p)
+			}
+			res = result{code: 99, stderr: fmt.Sprintf("gojq: panic: %v\n", p)}
+		}
+	}()
 	var in io.Reader = strings.NewReader(stdin)
 	if !seekableStdin {
 		in = pipeReader{in}
@@ -665,8 +677,13 @@ func inputsChecks(c *Ctx, dir string, round int) {
 	useStdinOperand := nfiles > 0 && r.Chance(1, 3)
 	var srcs []source
 	files := map[string]string{}
+	curFiles = files
+	defer func() { curFiles = nil }()
 	for _, raw := range []bool{false, true} {
 		srcs = srcs[:0]
+		for k := range files {
+			delete(files, k)
+		}
 		stdinText := ""
 		if raw {
 			stdinText = genRaw(r)
@@ -842,6 +859,9 @@ var plainWords = []string{"w", "1", "x y", "", "null", `"q"`, "[1]", "-", "-1", 
 func argsChecks(c *Ctx, dir string, round int) {
 	r := c.Rng
 	files := map[string]string{}
+	short := map[string]string{}
+	curFiles = short
+	defer func() { curFiles = nil }()
 	mkfile := func(kind string) string {
 		name := filepath.Join(dir, fmt.Sprintf("a%d_%s%d", round, kind, r.Intn(1000)))
 		if r.Chance(1, 8) {
@@ -855,6 +875,7 @@ func argsChecks(c *Ctx, dir string, round int) {
 		}
 		os.WriteFile(name, []byte(text), 0o644)
 		files[name] = text
+		short[filepath.Base(name)] = text
 		return name
 	}
 	var words []string
@@ -941,23 +962,26 @@ func argsChecks(c *Ctx, dir string, round int) {
 			dict = append(dict, fmt.Sprintf("(json %s %s)", Hexs([]byte(t)), SexpVal(v)))
 		}
 	}
-	for _, w := range words {
-		addJSON(w)
+	// file names travel without the (random) temp dir prefix
+	swords := shortArgs(words, dir)
+	for wi, w := range words {
+		addJSON(swords[wi])
 		if strings.HasPrefix(w, dir) && !seen["f"+w] {
 			seen["f"+w] = true
+			sw := swords[wi]
 			text, ok := files[w]
 			if !ok {
-				dict = append(dict, fmt.Sprintf("(slurp %s err)", Hexs([]byte(w))), fmt.Sprintf("(raw %s err)", Hexs([]byte(w))))
+				dict = append(dict, fmt.Sprintf("(slurp %s err)", Hexs([]byte(sw))), fmt.Sprintf("(raw %s err)", Hexs([]byte(sw))))
 				continue
 			}
-			dict = append(dict, fmt.Sprintf("(raw %s %s)", Hexs([]byte(w)), SexpVal(text)))
+			dict = append(dict, fmt.Sprintf("(raw %s %s)", Hexs([]byte(sw)), SexpVal(text)))
 			if vals, ok := decodeAll(text); ok {
 				if vals == nil {
 					vals = []any{}
 				}
-				dict = append(dict, fmt.Sprintf("(slurp %s %s)", Hexs([]byte(w)), SexpVal(vals)))
+				dict = append(dict, fmt.Sprintf("(slurp %s %s)", Hexs([]byte(sw)), SexpVal(vals)))
 			} else {
-				dict = append(dict, fmt.Sprintf("(slurp %s err)", Hexs([]byte(w))))
+				dict = append(dict, fmt.Sprintf("(slurp %s err)", Hexs([]byte(sw))))
 			}
 		}
 	}
@@ -969,7 +993,7 @@ func argsChecks(c *Ctx, dir string, round int) {
 		impl = "(weird " + Hexs([]byte(res.stdout)) + ")"
 	}
 	hw := make([]string, len(words))
-	for i, w := range words {
+	for i, w := range swords {
 		hw[i] = Hexs([]byte(w))
 	}
 	c.Emit("(args (%s) (%s) %s)", strings.Join(hw, " "), strings.Join(dict, " "), impl)
@@ -996,13 +1020,13 @@ func argsChecks(c *Ctx, dir string, round int) {
 			}
 			r2 := runCLI(w2, "")
 			if strings.TrimSpace(r2.stdout) != "true" {
-				c.Violation("%s :: $name differs from $ARGS.named.name", caseText(shortArgs(w2, dir), "", nil))
+				c.Violation("%s :: $name differs from $ARGS.named.name", caseText(shortArgs(w2, dir), "", short))
 			}
 			// literal: the same object written in the query language
 			lit, _ := json.Marshal(vals[0])
 			r3 := runCLI([]string{"-n", "-c", string(lit)}, "")
 			if r3.stdout != res.stdout {
-				c.Violation("%s :: $ARGS differs from its own literal", caseText(shortArgs(words, dir), "", nil))
+				c.Violation("%s :: $ARGS differs from its own literal", caseText(shortArgs(words, dir), "", short))
 			}
 			c.Count("equiv:args")
 		}
@@ -1017,6 +1041,7 @@ func runC16(c *Ctx) {
 		panic(err)
 	}
 	defer os.RemoveAll(dir)
+	curCtx, curDir = c, dir
 	_ = hex.EncodeToString
 	_ = bytes.NewReader
 	n := c.N
